@@ -296,3 +296,37 @@ Example C04_run_two_instances_example :
       [[(0%nat, 0)]; [(0%nat, 1)]; [(0%nat, 0)]] =
   [0; 1; 1; 1;   0; 1; 3; 1;   0; 1; 3; 1;   0; 3; 3; 3].
 Proof. vm_compute. reflexivity. Qed.
+
+(* ---------------- rtlil.emit_assignment_list always passes its final assertion ---------------- *)
+(* for ALL Match tables created in netlist order and ALL assignment lists whose conditions are chains of existing
+   Match outputs ending in const 1 (what _ir builds): the model returns a process (with the fuel bound al_fuel), i.e.
+   `assert pos == len(cell.assignments)` holds; together with C04_emit_assignment_list_correct the process is right *)
+Theorem C04_emit_assignment_list_complete tab default l : wf_tab tab -> conds_ok tab l ->
+  exists proc, emit_assignment_list tab default l = Some proc.
+Proof. exact (emit_assignment_list_complete tab default l). Qed.
+Print Assumptions C04_emit_assignment_list_complete.
+
+Theorem C04_emit_assignment_list_total_correct rho tab w default l : wf_tab tab -> conds_ok tab l ->
+  exists proc, emit_assignment_list tab default l = Some proc /\
+  forall acc, exec_ptrees rho w proc acc =
+              nir_run (cval rho tab) rho w l (put w acc 0 (nlen default) (nval rho default)).
+Proof.
+  intros Hwf Hok. destruct (emit_assignment_list_complete tab default l Hwf Hok) as [proc H].
+  exists proc. split; [exact H|]. exact (C04_emit_assignment_list_correct rho tab w default l proc Hwf H).
+Qed.
+Print Assumptions C04_emit_assignment_list_total_correct.
+(* non-vacuity: the table and list of C04_emit_assignment_list_example, assignments out of Match-bit order included *)
+Example C04_conds_ok_example :
+  let tab := [MC CTrue [NV 0%nat; NV 1%nat] [[[None; Some true]]; [[Some true; None]]];
+              MC (CM 0 1) [NV 2%nat] [[[Some false]]; [[None]]]] in
+  conds_ok tab [NA (CM 1 1) 0 [NC true]; NA (CM 0 0) 0 [NC true; NC true]; NA (CM 1 0) 1 [NC true]; NA CTrue 3 [NV 3%nat]].
+Proof.
+  cbv zeta. unfold conds_ok.
+  assert (H00 : under [MC CTrue [NV 0%nat; NV 1%nat] [[[None; Some true]]; [[Some true; None]]];
+                       MC (CM 0 1) [NV 2%nat] [[[Some false]]; [[None]]]] CTrue (CM 0 0))
+    by (eapply under_step; [reflexivity|simpl; auto|apply under_refl]).
+  assert (H01 : under [MC CTrue [NV 0%nat; NV 1%nat] [[[None; Some true]]; [[Some true; None]]];
+                       MC (CM 0 1) [NV 2%nat] [[[Some false]]; [[None]]]] CTrue (CM 0 1))
+    by (eapply under_step; [reflexivity|simpl; auto|apply under_refl]).
+  repeat constructor; auto; try (eapply under_step; [reflexivity|simpl; auto|exact H01]).
+Qed.
